@@ -160,6 +160,21 @@ def workload(tier, seed, scale=1.0):
             for op in ('add', 'sub'):
                 cmds.append(cmd_bb('C01', op, v, w, 'I', cell=(op, 'I', 'zero', ndig(w), 'edge')))
                 cmds.append(cmd_bb('C01', op, w, v, 'I', cell=(op, 'I', ndig(w), 'zero', 'edge')))
+    # scalar forms of + and - (u32/u64/u128 leaf impls, promoted narrow types, signed scalars on BigInt),
+    # big operands shorter / equal / longer than the scalar
+    from ..arith import cmd_sf, UTYPES, ITYPES, STYPES, scalar_extremes
+    for ty in UTYPES + ITYPES:
+        ext = scalar_extremes(ty)
+        for sv in (ext if tier != 'quick' else [x for x in ext if x in (0, 1, -1, STYPES[ty][0], STYPES[ty][1], STYPES[ty][1] - 1)] + rnd.sample(ext, 4)):
+            for n in (0, 1, 2, 3, 4, 5, 6, 11):
+                if scale < 1.0 and rnd.random() > scale:
+                    continue
+                for fam, a in (('random', rand_digits(rnd, n, 0)), ('allones', (1 << (64 * n)) - 1), ('lowzero', rand_digits(rnd, n, 0) >> 64 << 64)):
+                    for op in ('add', 'sub'):
+                        if ty in UTYPES:
+                            cmds.append(cmd_sf('C01', op, ty, a, sv, 'U', cell=('sf', op, ty, 'U', n, fam, sv.bit_length())))
+                        sa = rnd.choice((1, -1))
+                        cmds.append(cmd_sf('C01', op, ty, sa * a, sv, 'I', cell=('sf', op, ty, 'I', sa * n, fam, sv.bit_length(), sv < 0)))
     # seeded random fill
     nrand = int((3000 if tier == 'quick' else 20000) * scale)
     maxd = 200 if tier == 'quick' else 2000
